@@ -13,6 +13,9 @@ import (
 	"github.com/apache/thrift/lib/go/thrift"
 )
 
+// foreignCtx hides everything but the FContext interface: frugal.Clone takes its generic path for it
+type foreignCtx struct{ frugal.FContext }
+
 func stress() {
 	g, n := 32, 2000
 	if len(os.Args) > 3 {
@@ -30,7 +33,9 @@ func stress() {
 			p := pf.GetProtocol(mem)
 			for i := 0; i < n; i++ {
 				var c frugal.FContext
-				switch i % 3 {
+				switch i % 4 {
+				case 3:
+					c = frugal.Clone(foreignCtx{shared}) // a context type of the user's own: the clone still gets a fresh op id
 				case 0:
 					c = frugal.NewFContext("c")
 				case 1:
